@@ -9,6 +9,11 @@ panel parts placed at their ranges, `+ k0_conn`, `+ k0_conn · c`; tied to the r
 statement enters as a HYPOTHESIS on each panel (its tangent matrix is the derivative of its own internal force w.r.t. its own slice of
 the amplitude vector); `assembly_tangent_is_jacobian_gauss` discharges it with the panel theorems above for panels whose force and
 tangent entries have the Gauss-point form those theorems are stated in (`Spec/AssemblyGauss.lean` says what that form assumes).
+
+GLUE OF ONE PANEL (very last section): `Panel.calc_kT(c=…)` and `Panel.calc_fint(c, …)` as modelled in `Model/PanelGlue.lean` (`calcKT`,
+`calcFint`; helpers `Model/PanelGlueLemmas.lean`; tie: recorded-kernel-call correspondence `tools/props/C02.py : glue_correspondence`, methods
+`kT` and `fint`): `calc_kT_dispatch`, `calc_fint_dispatch`, `calc_fint_rejects`, `calc_kT_fint_consistent`, `calc_fint_zero_state`,
+`panel_tangent_is_jacobian_glue`.
 -/
 import CompmechVerif.Spec.NonlinearPoint
 import CompmechVerif.Spec.Jacobian.PlateU
@@ -28,6 +33,7 @@ import Mathlib.Tactic.FinCases
 import Mathlib.Data.Fintype.Basic
 import CompmechVerif.Spec.AssemblyJacobian
 import CompmechVerif.Spec.AssemblyGauss
+import CompmechVerif.Model.PanelGlueLemmas
 
 set_option linter.unnecessarySeqFocus false
 set_option linter.unusedSectionVars false
@@ -525,6 +531,405 @@ example (c : List ℝ) (hc : c.length = 6) (i j : Nat) (hi : i < 6) (hj : j < 6)
       rw [sz k hk] at ha hb ⊢
       simp only [Bool.false_eq_true, if_false]
       exact gauss_pair k _ (by rw [length_slice ps2 k hk c hc, sz k hk]) a b ha hb) i j hi hj
+
+end C08
+
+
+/-! ### the Python glue of ONE panel: `Panel.calc_kT(c=…)` and `Panel.calc_fint(c, …)`
+
+Hand model `Model/PanelGlue.lean` (`calcKT`, `calcFint`), tied to the running `_panel.py` by the recorded-kernel-call correspondence of
+`tools/props/C02.py : glue_correspondence` (methods `kT`, `fint`).  For ALL panel states `P` and call arguments `A`, over any linearly
+ordered field.  Vocabulary (`Model/PanelGlueLemmas.lean`): `fSpec A` - the caller's `Fnxny` iff one was passed, else the panel's own
+`self.F`; `quadSpec P A` = `[nx, ny]`, each the argument if passed, else the attribute; `placeSpec k P A` = `[size, row0, col0]` as passed,
+else `dofs·m·n, 0, 0`; `col0Spec A`, `row0Spec A` - `col0`, `row0` as passed, else `0`; `zeroIfNone` - `None` read as `0.`; `P.nonzeroPreload` - at least one of
+`Nxx_cte, Nyy_cte, Nxy_cte` is a number different from 0; `P.onStrip` - both `y1`, `y2` are numbers; `boundsSpec P` = `[y1, y2]` then. -/
+
+namespace C08
+section glue
+open Compmech.PanelGlue Compmech.Asm Compmech
+variable {F : Type} [Field F] [LinearOrder F]
+
+/-- **`calc_kT` dispatch** (a Ritz vector `c` is passed).  Whenever the call succeeds: the model is flat or cylindrical, the panel is
+not restricted to a strip (`y1` and `y2` both `None`), `c` is a 1-D ndarray of the length `size`; the kernel calls are, in this order,
+`fkL_num`, then - iff at least one constant pre-load component is a non-zero number, and then exactly once - the analytic initial-stress
+kernel `fkG0(Nxx_cte, Nyy_cte, Nxy_cte, panel, size, row0, col0)` (`None` read as `0`), then `fkG_num`; BOTH state-based kernels get the
+SAME argument list `(c, Fnxny-or-self.F, panel, size, row0, col0, nx, ny, NLgeom=1)`; every kernel sees `r`, `alpharad` refreshed from
+the definition; the result is `finW(fkL_num [+ fkG0]) + finW(fkG_num)`, `finW` = `finalize_symmetric_matrix` iff `finalize`, stored in
+`kT`; and with `finalize` the returned matrix is entry by entry `fin(kL) + fin(kG) [+ fin(kG0(N_cte))]` of the kernel results. -/
+theorem calc_kT_dispatch (P : Panel F) (A : Args F) (R : Result F) (cv : CArg) (hc : A.c = some cv)
+    (h : (calcKT P A).res = .ok R) :
+    ∃ k kL pre kG, (calcKT P A).post.model = .kind k ∧ (k = .plate ∨ k = .cpanel) ∧ P.y1 = none ∧ P.y2 = none ∧
+      (cv.isArray = true ∧ cv.ndim = 1 ∧ cv.len = sizeSpec k P A) ∧
+      R.calls = kL :: (pre ++ [kG]) ∧
+      kL.num = true ∧ kL.name = .fkL_num ∧ kG.num = true ∧ kG.name = .fkG_num ∧
+      kL.args = [.cGiven, fSpec A, .panel] ++ placeSpec k P A ++ quadSpec P A ++ [.kwNL 1] ∧ kG.args = kL.args ∧
+      (pre ≠ [] ↔ P.nonzeroPreload) ∧
+      (∀ g ∈ pre, pre = [g] ∧ g.num = false ∧ g.name = .fkG0 ∧
+        g.args = [.q (zeroIfNone P.NxxCte), .q (zeroIfNone P.NyyCte), .q (zeroIfNone P.NxyCte), .panel] ++ placeSpec k P A) ∧
+      (∀ g ∈ R.calls, g.r = some (zeroIfNone P.r) ∧ g.alpharadFrom = some (zeroIfNone P.alphadeg)) ∧
+      R.comb = .add ((if A.finalize = true then Comb.fin else id) (if pre = [] then .call 0 else .add (.call 0) (.call 1)))
+        ((if A.finalize = true then Comb.fin else id) (.call (pre.length + 1))) ∧
+      R.store = .kT ∧
+      (A.finalize = true → ∀ (kern : KCall F → Coo F) (r c : Nat),
+        toFun (R.eval kern) r c =
+          toFun (finalize (kern kL)) r c + toFun (finalize (kern kG)) r c + (pre.map fun g => toFun (finalize (kern g)) r c).sum) := by
+  obtain ⟨k, P3, P4, hsd3, hsd4, hpost, hk4, hn, hy1, hy2, hcc, hr3, hal3, hr4, hal4, hR⟩ := calcKT_ok hc h
+  have hpre : preloaded P3 = true ↔ P.nonzeroPreload := by
+    rw [preloaded_iff]; unfold Panel.nonzeroPreload; rw [hsd3.NxxCte, hsd3.NyyCte, hsd3.NxyCte]
+  have hb : boundsSpec P3 = [] := by unfold boundsSpec; rw [hsd3.y1, hy1]
+  have hy1' : P3.y1 = none := by rw [hsd3.y1, hy1]
+  have hspec : k0Prestress P3 A (sizeSpec k P A) =
+      if preloaded P3 = true then
+        [mkCall P3 false .fkG0 ([.q (zeroIfNone P.NxxCte), .q (zeroIfNone P.NyyCte), .q (zeroIfNone P.NxyCte), .panel] ++
+          placeSpec k P A)]
+      else [] := by
+    rw [k0Prestress_spec, hb, hy1', placement_eq, hsd3.NxxCte, hsd3.NyyCte, hsd3.NxyCte]
+    simp
+  rw [numArgs_spec] at hR
+  refine ⟨k, mkCall P3 true .fkL_num ([.cGiven, fSpec A, .panel] ++ placeSpec k P A ++ quadSpec P A ++ [.kwNL 1]),
+    k0Prestress P3 A (sizeSpec k P A),
+    mkCall P4 true .fkG_num ([.cGiven, fSpec A, .panel] ++ placeSpec k P A ++ quadSpec P A ++ [.kwNL 1]), by rw [hpost]; exact hk4, (hasNum_iff k).mp hn, hy1, hy2, checkC_none hcc,
+    by rw [hR], rfl, rfl, rfl, rfl, rfl, rfl, ?_, ?_, ?_, ?_, by rw [hR], ?_⟩
+  · rw [hspec]
+    by_cases hp : preloaded P3 = true
+    · simp [hp, hpre.mp hp]
+    · simp [hp, mt hpre.mpr hp]
+  · intro g hg
+    rw [hspec] at hg ⊢
+    by_cases hp : preloaded P3 = true
+    · simp only [hp, if_true, List.mem_singleton] at hg ⊢
+      subst hg
+      exact ⟨rfl, rfl, rfl, by simp [mkCall]⟩
+    · simp [hp] at hg
+  · intro g hg
+    rw [hR] at hg
+    simp only [List.mem_cons, List.mem_append, List.mem_singleton, List.not_mem_nil, or_false] at hg
+    rcases hg with rfl | hg | rfl
+    · exact ⟨by show P3.r = _; rw [hr3, getD_eq_zeroIfNone], by show P3.alpharadFrom = _; rw [hal3, getD_eq_zeroIfNone]⟩
+    · rw [hspec] at hg
+      by_cases hp : preloaded P3 = true
+      · simp only [hp, if_true, List.mem_singleton] at hg
+        subst hg
+        exact ⟨by show P3.r = _; rw [hr3, getD_eq_zeroIfNone], by show P3.alpharadFrom = _; rw [hal3, getD_eq_zeroIfNone]⟩
+      · simp [hp] at hg
+    · exact ⟨by show P4.r = _; rw [hr4, getD_eq_zeroIfNone], by show P4.alpharadFrom = _; rw [hal4, getD_eq_zeroIfNone]⟩
+  · rw [hR, hspec]
+    by_cases hp : preloaded P3 = true <;> cases A.finalize <;> simp [hp, finWrap, sumCalls]
+  · intro hfin kern r c
+    rw [hR, hspec]
+    unfold Result.eval
+    by_cases hp : preloaded P3 = true
+    · simp only [hp, if_true, hfin, finWrap, List.length_cons, List.length_nil, sumCalls, Comb.eval]
+      rw [toFun_append, toFun_finalize_append]
+      simp
+      ring
+    · simp [hp, hfin, finWrap, sumCalls, Comb.eval, toFun_append]
+
+/-- non-vacuity: the witness panel on its full width with the pre-load `(5, −5, None)` (components cancel), `c` of the right size, a
+caller's `Fnxny`, `nx = 4`: `fkL_num`, `fkG0(5, −5, 0, …)`, `fkG_num`, both state-based kernels with `(c, Fnxny, P, 18, 0, 0, 4, 3, NLgeom=1)` -/
+example : ∃ R, (calcKT { exPanel with y1 := none, y2 := none } { c := some ⟨true, 1, 18⟩, fnxny := true, nx := some 4 }).res = .ok R ∧
+    sig R = [(.fkL_num, [.cGiven, .fGiven, .panel, .nat 18, .nat 0, .nat 0, .nat 4, .nat 3, .kwNL 1]),
+             (.fkG0, [.q 5, .q (-5), .q 0, .panel, .nat 18, .nat 0, .nat 0]),
+             (.fkG_num, [.cGiven, .fGiven, .panel, .nat 18, .nat 0, .nat 0, .nat 4, .nat 3, .kwNL 1])] ∧
+    R.comb = .add (.fin (.add (.call 0) (.call 1))) (.fin (.call 2)) := by
+  refine ⟨_, rfl, rfl, ?_⟩
+  decide
+
+/-- **`calc_fint` dispatch.**  Whenever the call succeeds: the model is flat or cylindrical (a model without numerical module raises
+`ValueError`, below), `c` was passed and is at most 1-D, a laminate table is available (`Fnxny` passed, or `self.F` set by an earlier
+`calc_k0`); the FIRST kernel call is `matrices_num.calc_fint(c, Fnxny-or-self.F, panel, size, col0, nx, ny)` with the same `Fnxny / nx / ny`
+rule as `calc_kT`; an initial-stress kernel call follows iff at least one constant pre-load component is a non-zero number (the guard of
+`calc_k0 / calc_kT`), there is at most one, it is `fkG0` - `fkG0y1y2` with the bounds in front iff the panel is a strip - with
+`(Nxx_cte, Nyy_cte, Nxy_cte)` in this order, `None` read as `0`, placed at `(size, col0, col0)`; every kernel sees `r`, `alpharad` refreshed;
+the returned vector is what the force kernel returned, plus - entry by entry, iff that second call was made -
+`finalize_symmetric_matrix(kG0_cte) · c`, and then `len(c) = size`. -/
+theorem calc_fint_dispatch (P : Panel F) (A : Args F) (R : VResult F) (h : (calcFint P A).res = .ok R) :
+    ∃ k cv f pre, P.model = .kind k ∧ (k = .plate ∨ k = .cpanel) ∧ A.c = some cv ∧ cv.ndim ≤ 1 ∧
+      (A.fnxny = true ∨ P.lamSet = true) ∧
+      R.calls = f :: pre ∧ f.num = true ∧ f.name = .calc_fint ∧
+      f.args = [.cGiven, fSpec A, .panel, .nat (sizeSpec k P A), .nat (col0Spec A)] ++ quadSpec P A ∧
+      (pre ≠ [] ↔ P.nonzeroPreload) ∧ (R.prestress = true ↔ P.nonzeroPreload) ∧ (P.nonzeroPreload → cv.len = sizeSpec k P A) ∧
+      (∀ g ∈ pre, pre = [g] ∧ g.num = false ∧ (g.name = .fkG0y1y2 ↔ P.onStrip) ∧ (g.name = .fkG0 ↔ ¬ P.onStrip) ∧
+        g.args = boundsSpec P ++ [.q (zeroIfNone P.NxxCte), .q (zeroIfNone P.NyyCte), .q (zeroIfNone P.NxyCte), .panel,
+          .nat (sizeSpec k P A), .nat (col0Spec A), .nat (col0Spec A)]) ∧
+      (∀ g ∈ R.calls, g.r = some (zeroIfNone P.r) ∧ g.alpharadFrom = some (zeroIfNone P.alphadeg)) ∧
+      (∀ (kernV : KCall F → List F) (kern : KCall F → Coo F) (c : List F),
+        (R.eval kernV kern c).length = (kernV f).length ∧
+        ∀ i, i < (kernV f).length →
+          (R.eval kernV kern c).getD i 0 = (kernV f).getD i 0 + (pre.map fun g => mulVecAt (finalize (kern g)) c i).sum) := by
+  obtain ⟨k, cv, P2, hk, hn, hc, hnd, hF, hsd, hpost, hr, hal, hlen, hR⟩ := calcFint_ok h
+  have hpre : preloaded P2 = true ↔ P.nonzeroPreload := by
+    rw [preloaded_iff]; unfold Panel.nonzeroPreload; rw [hsd.NxxCte, hsd.NyyCte, hsd.NxyCte]
+  have hb : boundsSpec P2 = boundsSpec P := by unfold boundsSpec; rw [hsd.y1, hsd.y2]
+  have hspec := k0Prestress_spec P2 { A with row0 := A.col0 } (sizeSpec k P A)
+  have hpl : placement { A with row0 := A.col0 } (sizeSpec k P A) =
+      ([.nat (sizeSpec k P A), .nat (col0Spec A), .nat (col0Spec A)] : List (Arg F)) := by
+    unfold placement col0Spec; cases A.col0 <;> rfl
+  rw [hb, hsd.NxxCte, hsd.NyyCte, hsd.NxyCte, hpl] at hspec
+  rw [fintArgs_spec] at hR
+  obtain ⟨hs1, hs2⟩ := name_strip_iff P P2 hsd .fkG0y1y2 .fkG0 (by decide)
+  refine ⟨k, cv, mkCall P2 true .calc_fint ([.cGiven, fSpec A, .panel, .nat (sizeSpec k P A), .nat (col0Spec A)] ++ quadSpec P A),
+    k0Prestress P2 { A with row0 := A.col0 } (sizeSpec k P A), hk, (hasNum_iff k).mp hn, hc, hnd, hF, by rw [hR],
+    rfl, rfl, rfl, ?_, ?_, fun hp => hlen (hpre.mpr hp), ?_, ?_, ?_⟩
+  · rw [hspec]
+    by_cases hp : preloaded P2 = true
+    · simp [hp, hpre.mp hp]
+    · simp [hp, mt hpre.mpr hp]
+  · rw [hR]; exact hpre
+  · intro g hg
+    rw [hspec] at hg ⊢
+    by_cases hp : preloaded P2 = true
+    · simp only [hp, if_true, List.mem_singleton] at hg ⊢
+      subst hg
+      exact ⟨rfl, rfl, hs1, hs2, by simp [mkCall]⟩
+    · simp [hp] at hg
+  · intro g hg
+    rw [hR] at hg
+    simp only [List.mem_cons] at hg
+    rcases hg with rfl | hg
+    · exact ⟨by show P2.r = _; rw [hr, getD_eq_zeroIfNone], by show P2.alpharadFrom = _; rw [hal, getD_eq_zeroIfNone]⟩
+    · rw [hspec] at hg
+      by_cases hp : preloaded P2 = true
+      · simp only [hp, if_true, List.mem_singleton] at hg
+        subst hg
+        exact ⟨by show P2.r = _; rw [hr, getD_eq_zeroIfNone], by show P2.alpharadFrom = _; rw [hal, getD_eq_zeroIfNone]⟩
+      · simp [hp] at hg
+  · intro kernV kern c
+    rw [hR, hspec]
+    unfold VResult.eval
+    by_cases hp : preloaded P2 = true
+    · simp only [hp, if_true]
+      refine ⟨by simp, fun i hi => ?_⟩
+      rw [getD_map_range _ _ _ _ hi]
+      simp
+    · simp [hp]
+
+/-- non-vacuity: the witness panel (strip from `y1 = 0.0`, pre-load `(5, −5, None)`) as a flat plate with a laminate, `col0 = 2`, a global
+vector of length 20: `calc_fint(c, F, P, 20, 2, 2, 3)` and `fkG0y1y2(0, 1/2, 5, −5, 0, P, 20, 2, 2)`; the returned vector is an ndarray -/
+example : ∃ R, (calcFint { exPanel with model := .kind .plate, lamSet := true }
+      { c := some ⟨true, 1, 20⟩, size := some 20, col0 := some 2 }).res = .ok R ∧
+    R.calls.map (fun g => (g.name, g.args)) =
+      [(.calc_fint, [.cGiven, .fOwn, .panel, .nat 20, .nat 2, .nat 2, .nat 3]),
+       (.fkG0y1y2, [.q 0, .q (1 / 2), .q 5, .q (-5), .q 0, .panel, .nat 20, .nat 2, .nat 2])] ∧ R.prestress = true := by
+  refine ⟨_, rfl, rfl, rfl⟩
+
+set_option linter.unusedSectionVars false in
+/-- `calc_fint` on what it cannot serve: no `c` - `TypeError`; `model` `None` or unknown, a model without numerical module (one-field
+plate, conical panel) - `ValueError`, the panel untouched; a 2-D `c` and a missing laminate table are rejected at the entry of the
+compiled function (`ValueError`); a pre-loaded panel with `len(c) ≠ size` - `ValueError` of the sparse product. -/
+theorem calc_fint_rejects (P : Panel F) (A : Args F) :
+    (A.c = none → (calcFint P A).res = .error .cMissing ∧ (calcFint P A).post = P) ∧
+    (∀ cv, A.c = some cv → (P.model = .unset ∨ P.model = .invalid) →
+      (calcFint P A).res = .error .fintModel ∧ (calcFint P A).post = P) ∧
+    (∀ cv, A.c = some cv → (P.model = .kind .plateW ∨ P.model = .kind .kpanel) →
+      (calcFint P A).res = .error .fintNoNum ∧ (calcFint P A).post = P) ∧
+    (∀ cv k, A.c = some cv → P.model = .kind k → k.hasNum = true → 1 < cv.ndim → (calcFint P A).res = .error .cBufferNdim) ∧
+    (∀ cv k, A.c = some cv → P.model = .kind k → k.hasNum = true → cv.ndim ≤ 1 → A.fnxny = false → P.lamSet = false →
+      (calcFint P A).res = .error .finputShape) ∧
+    Err.pyType .cMissing = "TypeError" ∧ Err.pyType .fintModel = "ValueError" ∧ Err.pyType .fintNoNum = "ValueError" ∧
+    Err.pyType .cBufferNdim = "ValueError" ∧ Err.pyType .finputShape = "ValueError" ∧ Err.pyType .dotMismatch = "ValueError" := by
+  refine ⟨?_, ?_, ?_, ?_, ?_, rfl, rfl, rfl, rfl, rfl, rfl⟩
+  · intro hc; simp [PanelGlue.calcFint, hc]
+  · rintro cv hc (hm | hm) <;> simp [PanelGlue.calcFint, hc, hm]
+  · rintro cv hc (hm | hm) <;> simp [PanelGlue.calcFint, hc, hm, ModelKind.hasNum]
+  · intro cv k hc hm hn hnd
+    unfold PanelGlue.calcFint
+    simp only [hc, hm, hn, ModelKind.hasFint, Bool.not_true, Bool.false_eq_true, if_false]
+    cases A.size <;> simp [resolveSize, hnd]
+  · intro cv k hc hm hn hnd hf hl
+    unfold PanelGlue.calcFint
+    simp only [hc, hm, hn, ModelKind.hasFint, Bool.not_true, Bool.false_eq_true, if_false]
+    have : ¬ 1 < cv.ndim := by omega
+    cases A.size <;> simp [resolveSize, this, hf, refreshGeom, hl]
+
+/-- non-vacuity: the one-field plate has no non-linear kernel -/
+example : (calcFint { exPanel with model := .kind .plateW } { c := some ⟨true, 1, 6⟩ }).res = .error .fintNoNum := rfl
+
+/-- **`calc_kT(c, …)` and `calc_fint(c, …)` hand their kernels the same state.**  For every panel state and every argument set for which
+BOTH calls succeed: the three state-based kernels `fkL_num`, `fkG_num` (of `calc_kT`) and `calc_fint` get the identical Ritz vector `c`,
+the identical laminate table (the caller's `Fnxny`, else `self.F`), the identical `size`, `col0` and the identical numbers of integration
+points `nx, ny` (argument, else attribute), `len(c) = size`, and see the same `r`, `alpharad`; the constant pre-load is applied by both
+or by neither (iff some `N*_cte` is a non-zero number), through the same analytic kernel `fkG0` with the identical load arguments, placed at
+`(row0, col0)` by `calc_kT` and at `(col0, col0)` by `calc_fint` (which has no `row0`) - so for `row0 = col0` the two pre-stress kernel calls
+are IDENTICAL calls. -/
+theorem calc_kT_fint_consistent (P : Panel F) (A : Args F) (RT : Result F) (RF : VResult F) (cv : CArg) (hc : A.c = some cv)
+    (hT : (calcKT P A).res = .ok RT) (hF : (PanelGlue.calcFint P A).res = .ok RF) :
+    ∃ kL preT kG f preF size, RT.calls = kL :: (preT ++ [kG]) ∧ RF.calls = f :: preF ∧
+      kL.name = .fkL_num ∧ kG.name = .fkG_num ∧ f.name = .calc_fint ∧ kL.num = true ∧ kG.num = true ∧ f.num = true ∧
+      kL.args = [.cGiven, fSpec A, .panel, .nat size, .nat (row0Spec A), .nat (col0Spec A)] ++ quadSpec P A ++ [.kwNL 1] ∧
+      kG.args = kL.args ∧
+      f.args = [.cGiven, fSpec A, .panel, .nat size, .nat (col0Spec A)] ++ quadSpec P A ∧
+      cv.len = size ∧
+      (∀ g ∈ RT.calls, g.r = f.r ∧ g.alpharadFrom = f.alpharadFrom) ∧
+      (∀ g ∈ RF.calls, g.r = f.r ∧ g.alpharadFrom = f.alpharadFrom) ∧
+      (preT ≠ [] ↔ P.nonzeroPreload) ∧ (preF ≠ [] ↔ P.nonzeroPreload) ∧ (RF.prestress = true ↔ P.nonzeroPreload) ∧
+      (∀ gT ∈ preT, ∀ gF ∈ preF, preT = [gT] ∧ preF = [gF] ∧ gT.num = false ∧ gF.num = false ∧ gT.name = .fkG0 ∧ gF.name = .fkG0 ∧
+        gT.args = [.q (zeroIfNone P.NxxCte), .q (zeroIfNone P.NyyCte), .q (zeroIfNone P.NxyCte), .panel,
+          .nat size, .nat (row0Spec A), .nat (col0Spec A)] ∧
+        gF.args = [.q (zeroIfNone P.NxxCte), .q (zeroIfNone P.NyyCte), .q (zeroIfNone P.NxyCte), .panel,
+          .nat size, .nat (col0Spec A), .nat (col0Spec A)]) ∧
+      (row0Spec A = col0Spec A → preT = preF) := by
+  obtain ⟨k, kL, preT, kG, _, hk, hy1, hy2, ⟨_, _, hlen⟩, hcT, hLn, hLname, hGn, hGname, hLa, hGa, hpT, hgT, hrT, _, _, _⟩ :=
+    calc_kT_dispatch P A RT cv hc hT
+  obtain ⟨k', cv', f, preF, _, hk', hc', _, _, hcF, hfn, hfname, hfa, hpF, hps, _, hgF, hrF, _⟩ := calc_fint_dispatch P A RF hF
+  have hsz : sizeSpec k' P A = sizeSpec k P A := by
+    unfold sizeSpec
+    rcases hk with rfl | rfl <;> rcases hk' with rfl | rfl <;> rfl
+  have hns : ¬ P.onStrip := by
+    unfold Panel.onStrip; rw [hy1]; simp
+  have hbs : boundsSpec P = [] := by unfold boundsSpec; rw [hy1]
+  have hfr : f.r = some (zeroIfNone P.r) ∧ f.alpharadFrom = some (zeroIfNone P.alphadeg) := hrF f (by rw [hcF]; simp)
+  have hpair : ∀ gT ∈ preT, ∀ gF ∈ preF, preT = [gT] ∧ preF = [gF] ∧ gT.num = false ∧ gF.num = false ∧ gT.name = .fkG0 ∧
+      gF.name = .fkG0 ∧
+      gT.args = [.q (zeroIfNone P.NxxCte), .q (zeroIfNone P.NyyCte), .q (zeroIfNone P.NxyCte), .panel,
+        .nat (sizeSpec k P A), .nat (row0Spec A), .nat (col0Spec A)] ∧
+      gF.args = [.q (zeroIfNone P.NxxCte), .q (zeroIfNone P.NyyCte), .q (zeroIfNone P.NxyCte), .panel,
+        .nat (sizeSpec k P A), .nat (col0Spec A), .nat (col0Spec A)] := by
+    intro gT hgTm gF hgFm
+    obtain ⟨a1, a2, a3, a4⟩ := hgT gT hgTm
+    obtain ⟨b1, b2, _, b4, b5⟩ := hgF gF hgFm
+    refine ⟨a1, b1, a2, b2, a3, b4.mpr hns, ?_, ?_⟩
+    · rw [a4]; rfl
+    · rw [b5, hbs, hsz]; rfl
+  refine ⟨kL, preT, kG, f, preF, sizeSpec k P A, hcT, hcF, hLname, hGname, hfname, hLn, hGn, hfn, ?_, hGa, ?_, hlen, ?_, ?_, hpT, hpF, hps,
+    hpair, ?_⟩
+  · rw [hLa]; rfl
+  · rw [hfa, hsz]
+  · intro g hg; rw [hfr.1, hfr.2]; exact hrT g hg
+  · intro g hg; rw [hfr.1, hfr.2]; exact hrF g hg
+  · intro hrow
+    by_cases hp : P.nonzeroPreload
+    · obtain ⟨gT, hgTm⟩ := List.exists_mem_of_ne_nil _ (hpT.mpr hp)
+      obtain ⟨gF, hgFm⟩ := List.exists_mem_of_ne_nil _ (hpF.mpr hp)
+      obtain ⟨e1, e2, n1, n2, m1, m2, a1, a2⟩ := hpair gT hgTm gF hgFm
+      have r1 := hrT gT (by rw [hcT]; simp [hgTm])
+      have r2 := hrF gF (by rw [hcF]; simp [hgFm])
+      rw [e1, e2]
+      congr 1
+      cases gT; cases gF
+      simp only [KCall.mk.injEq]
+      simp only at n1 n2 m1 m2 a1 a2 r1 r2
+      rw [hrow] at a1
+      exact ⟨n1.trans n2.symm, m1.trans m2.symm, a1.trans a2.symm, r1.1.trans r2.1.symm, r1.2.trans r2.2.symm⟩
+    · have t1 : preT = [] := by by_contra hne; exact hp (hpT.mp hne)
+      have t2 : preF = [] := by by_contra hne; exact hp (hpF.mp hne)
+      rw [t1, t2]
+
+/-- non-vacuity: both calls succeed on the pre-loaded witness panel (full width, laminate present) with the same arguments -/
+example : ∃ RT RF, (calcKT { exPanel with y1 := none, y2 := none, model := .kind .plate, lamSet := true }
+      { c := some ⟨true, 1, 18⟩, nx := some 4 }).res = .ok RT ∧
+    (PanelGlue.calcFint { exPanel with y1 := none, y2 := none, model := .kind .plate, lamSet := true }
+      { c := some ⟨true, 1, 18⟩, nx := some 4 }).res = .ok RF ∧ RT.calls.length = 3 ∧ RF.calls.length = 2 :=
+  ⟨_, _, rfl, rfl, rfl, rfl⟩
+
+/-- **at the undeformed state the pre-stress part vanishes**: for ANY successful `calc_fint` and any kernel results, with `c = 0` (of any
+length) the returned vector is exactly what the force kernel returned - `finalize_symmetric_matrix(kG0_cte) · 0` contributes nothing,
+whatever the pre-load; so with `fint_zero_plate / fint_zero_cpanel` (every integrand of the force kernel vanishes at the zero state) the
+internal force of a pre-loaded panel vanishes at `c = 0`. -/
+theorem calc_fint_zero_state (P : Panel F) (A : Args F) (R : VResult F) (h : (PanelGlue.calcFint P A).res = .ok R) :
+    ∃ f pre, R.calls = f :: pre ∧ f.name = .calc_fint ∧
+      ∀ (kernV : KCall F → List F) (kern : KCall F → Coo F) (n : Nat),
+        R.eval kernV kern (zeroVec n) = kernV f ∧
+        (∀ m, kernV f = zeroVec m → R.eval kernV kern (zeroVec n) = zeroVec m) := by
+  obtain ⟨k, cv, f, pre, _, _, _, _, _, hcalls, _, hname, _, _, _, _, _, _, hev⟩ := calc_fint_dispatch P A R h
+  refine ⟨f, pre, hcalls, hname, fun kernV kern n => ?_⟩
+  have key : R.eval kernV kern (zeroVec n) = kernV f := by
+    obtain ⟨hl, hv⟩ := hev kernV kern (zeroVec n)
+    apply List.ext_getElem hl
+    intro i h1 h2
+    have := hv i h2
+    rw [List.getD_eq_getElem _ _ h1, List.getD_eq_getElem _ _ h2] at this
+    rw [this]
+    have hz : (pre.map fun g => mulVecAt (finalize (kern g)) (zeroVec n) i).sum = 0 := by
+      apply List.sum_eq_zero
+      intro x hx
+      simp only [List.mem_map] at hx
+      obtain ⟨g, _, rfl⟩ := hx
+      exact mulVecAt_zeroVec _ _ _
+    rw [hz, add_zero]
+  exact ⟨key, fun m hm => by rw [key, hm]⟩
+
+/-- non-vacuity: the pre-loaded witness strip; force kernel returning `0`, ANY matrix from the pre-stress kernel -/
+example (M : Coo ℚ) : ∃ R, (PanelGlue.calcFint { exPanel with model := .kind .plate, lamSet := true }
+      { c := some ⟨true, 1, 18⟩ }).res = .ok R ∧ R.prestress = true ∧
+    R.eval (fun _ => zeroVec 18) (fun _ => M) (zeroVec 18) = zeroVec 18 := by
+  obtain ⟨f, pre, _, _, hz⟩ := calc_fint_zero_state _ _ _ (rfl : (PanelGlue.calcFint { exPanel with model := .kind .plate, lamSet := true }
+      { c := some ⟨true, 1, 18⟩ }).res = .ok _)
+  exact ⟨_, rfl, rfl, (hz _ _ 18).2 18 rfl⟩
+
+end glue
+
+/-- **`calc_kT(c)` is the Jacobian of `calc_fint` at `c`, at the level of the glue** (over ℝ).  Kernels are abstract functions of the
+recorded call AND of the Ritz vector the call was handed: `kernV g x` the vector of the force kernel, `kern g x` the COO result of a matrix
+kernel.  Kernel facts, as explicit hypotheses: `hK` - for the three state-based calls of the two methods (which by
+`calc_kT_fint_consistent` carry the same `c`, `Fnxny`, `size`, `col0`, `nx`, `ny`) the derivative of entry `a` of the force kernel along
+amplitude `b` is entry `(a, b)` of `fin(fkL_num) + fin(fkG_num)`: this is what `kT_is_derivative_gauss_sum_plate / _cpanel` prove for the
+regenerated integrands summed over ANY list of integration points, and it is only meaningful because the rule and the table are the same
+on both sides; `hconst` - an analytic kernel does not read the Ritz vector; `hlen` - the force kernel returns a vector of length `n`.
+Then for `finalize=True`, `row0 = col0`, `len(c) = n`, every `a, b < n`: the derivative at `t = 0` of entry `a` of
+`calc_fint(c + t e_b)` is entry `(a, b)` of `calc_kT(c)` - INCLUDING the constant pre-stress, which enters the force as
+`fin(kG0(N_cte)) · c` (linear in `c`) and the tangent as `fin(kG0(N_cte))`, by the same guard and the identical kernel call. -/
+theorem panel_tangent_is_jacobian_glue (P : PanelGlue.Panel ℝ) (A : PanelGlue.Args ℝ) (RT : PanelGlue.Result ℝ)
+    (RF : PanelGlue.VResult ℝ) (cv : PanelGlue.CArg) (hc : A.c = some cv) (hfin : A.finalize = true)
+    (hrow : PanelGlue.row0Spec A = PanelGlue.col0Spec A)
+    (hT : (PanelGlue.calcKT P A).res = .ok RT) (hF : (PanelGlue.calcFint P A).res = .ok RF)
+    (kernV : PanelGlue.KCall ℝ → List ℝ → List ℝ) (kern : PanelGlue.KCall ℝ → List ℝ → Asm.Coo ℝ) (c : List ℝ) (n : Nat)
+    (hcn : c.length = n)
+    (hlen : ∀ g x, g.name = .calc_fint → (kernV g x).length = n)
+    (hconst : ∀ g, g.num = false → ∀ x y, kern g x = kern g y)
+    (hK : ∀ kL ∈ RT.calls, ∀ kG ∈ RT.calls, ∀ f ∈ RF.calls, kL.name = .fkL_num → kG.name = .fkG_num → f.name = .calc_fint →
+      ∀ a b, a < n → b < n →
+        HasDerivAt (fun t : ℝ => (kernV f (Asm.axpy c t (Asm.unitVec n b))).getD a 0)
+          (Asm.toFun (Asm.finalize (kern kL c)) a b + Asm.toFun (Asm.finalize (kern kG c)) a b) 0)
+    (a b : Nat) (ha : a < n) (hb : b < n) :
+    HasDerivAt
+      (fun t : ℝ => (RF.eval (fun g => kernV g (Asm.axpy c t (Asm.unitVec n b))) (fun g => kern g (Asm.axpy c t (Asm.unitVec n b)))
+        (Asm.axpy c t (Asm.unitVec n b))).getD a 0)
+      (Asm.toFun (RT.eval fun g => kern g c) a b) 0 := by
+  obtain ⟨kL, preT, kG, f, preF, size, hcT, hcF, hLname, hGname, hfname, _, _, _, _, _, _, _, _, _, hpT, hpF, _, hpair, hsame⟩ :=
+    calc_kT_fint_consistent P A RT RF cv hc hT hF
+  have hpre := hsame hrow
+  subst hpre
+  obtain ⟨_, kL2, pre2, kG2, _, _, _, _, _, hcT2, _, _, _, _, _, _, _, _, _, _, _, hevT⟩ := calc_kT_dispatch P A RT cv hc hT
+  have e0 : kL2 = kL ∧ pre2 = preT ∧ kG2 = kG := by
+    rw [hcT] at hcT2
+    injection hcT2 with x y
+    obtain ⟨y1, y2⟩ := List.append_inj' y rfl
+    injection y2 with y2
+    exact ⟨x.symm, y1.symm, y2.symm⟩
+  obtain ⟨rfl, rfl, rfl⟩ := e0
+  obtain ⟨_, _, f', pre', _, _, _, _, _, hcF', _, _, _, _, _, _, _, _, hevF⟩ := calc_fint_dispatch P A RF hF
+  -- the two decompositions of the same call lists agree
+  have e1 : f' = f ∧ pre' = pre2 := by rw [hcF] at hcF'; injection hcF' with x y; exact ⟨x.symm, y.symm⟩
+  obtain ⟨rfl, rfl⟩ := e1
+  have hder := hK kL2 (by rw [hcT]; simp) kG2 (by rw [hcT]; simp) f' (by rw [hcF]; simp) hLname hGname hfname a b ha hb
+  have hfun : (fun t : ℝ => (RF.eval (fun g => kernV g (Asm.axpy c t (Asm.unitVec n b)))
+        (fun g => kern g (Asm.axpy c t (Asm.unitVec n b))) (Asm.axpy c t (Asm.unitVec n b))).getD a 0) =
+      fun t : ℝ => (kernV f' (Asm.axpy c t (Asm.unitVec n b))).getD a 0 +
+        ((pre'.map fun g => Asm.mulVecAt (Asm.finalize (kern g c)) c a).sum +
+          t * (pre'.map fun g => Asm.toFun (Asm.finalize (kern g c)) a b).sum) := by
+    funext t
+    obtain ⟨_, hv⟩ := hevF (fun g => kernV g (Asm.axpy c t (Asm.unitVec n b))) (fun g => kern g (Asm.axpy c t (Asm.unitVec n b)))
+      (Asm.axpy c t (Asm.unitVec n b))
+    rw [hv a (by rw [hlen f' _ hfname]; exact ha)]
+    congr 1
+    by_cases hp : P.nonzeroPreload
+    · obtain ⟨g, hg⟩ := List.exists_mem_of_ne_nil _ (hpT.mpr hp)
+      obtain ⟨e, _, hnum, _⟩ := hpair g hg g hg
+      rw [e]
+      simp only [List.map_cons, List.map_nil, List.sum_cons, List.sum_nil, add_zero]
+      rw [hconst g hnum _ c, Asm.mulVecAt_axpy _ c _ t (by rw [hcn, Asm.length_unitVec]), PanelGlue.mulVecAt_unitVec _ n a b hb]
+    · have t1 : pre' = [] := by by_contra hne; exact hp (hpT.mp hne)
+      rw [t1]; simp
+  rw [hfun, (hevT hfin (fun g => kern g c) a b)]
+  have hlin : HasDerivAt (fun t : ℝ => (pre'.map fun g => Asm.mulVecAt (Asm.finalize (kern g c)) c a).sum +
+      t * (pre'.map fun g => Asm.toFun (Asm.finalize (kern g c)) a b).sum)
+      ((pre'.map fun g => Asm.toFun (Asm.finalize (kern g c)) a b).sum) 0 := by
+    have h1 : HasDerivAt (fun t : ℝ => t * (pre'.map fun g => Asm.toFun (Asm.finalize (kern g c)) a b).sum)
+        ((pre'.map fun g => Asm.toFun (Asm.finalize (kern g c)) a b).sum) 0 := by
+      simpa using (hasDerivAt_id (0 : ℝ)).mul_const ((pre'.map fun g => Asm.toFun (Asm.finalize (kern g c)) a b).sum)
+    simpa using (hasDerivAt_const (0 : ℝ) ((pre'.map fun g => Asm.mulVecAt (Asm.finalize (kern g c)) c a).sum)).fun_add h1
+  exact hder.fun_add hlin
 
 end C08
 
